@@ -315,7 +315,9 @@ def simple_specs() -> dict[str, dict[str, Any]]:
     from aioesphomeapi import model
 
     def adv(i: int) -> Any:
-        m = pb.BluetoothLEAdvertisementResponse(address=1000 + i, rssi=-50 - i, address_type=i % 2, name=f"n{i}".encode())
+        # names: ASCII, UTF-8, and bytes that are not valid UTF-8 (the name is a bytes field: a peripheral can advertise anything)
+        nm = [f"n{i}".encode(), "K\u00fcche".encode(), b"K\xfcche\xff"][i % 3]
+        m = pb.BluetoothLEAdvertisementResponse(address=1000 + i, rssi=-50 - i, address_type=i % 2, name=nm)
         m.service_uuids.append("0xFE9F")
         return m
 
@@ -354,7 +356,8 @@ def simple_specs() -> dict[str, dict[str, Any]]:
             "subscribe": lambda c, cb: c.subscribe_bluetooth_le_advertisements(cb),
             "request": ("SubscribeBluetoothLEAdvertisementsRequest", {"flags": 0}),
             "msgs": [adv(i) for i in range(3)],
-            "expect": lambda m: ("adv", m.address, m.rssi, m.address_type, m.name.decode()),
+            # what cannot be decoded is shown as U+FFFD; the handler is called all the same
+            "expect": lambda m: ("adv", m.address, m.rssi, m.address_type, m.name.decode("utf-8", errors="replace")),
             "observe": lambda a: ("adv", a[0].address, a[0].rssi, a[0].address_type, a[0].name),
             "unsub_request": "UnsubscribeBluetoothLEAdvertisementsRequest",
         },
